@@ -75,6 +75,24 @@ func (d *Decoder) read(buf []byte) {
 	}
 }
 
+// canRead checks that size bytes are still available in the buffer (and sets an error, if they aren't): sizes
+// are read from untrusted data, so this must be checked BEFORE allocating memory for them
+func (d *Decoder) canRead(size int) bool {
+	if d.err != nil {
+		return false
+	}
+	if size < 0 || size > d.buf.Len() {
+		d.err = fmt.Errorf("buffer is too small: want %v bytes, have %v", size, d.buf.Len())
+		return false
+	}
+	return true
+}
+
+// CheckErr returns an error of previous reads, like Encoder.CheckErr does for writes
+func (d *Decoder) CheckErr() error {
+	return d.err
+}
+
 func (d *Decoder) unread(count int) {
 	for i := 0; i < count; i++ {
 		if d.buf.UnreadByte() != nil {
@@ -114,6 +132,9 @@ func (d *Decoder) PopUint() uint32 {
 }
 
 func (d *Decoder) PopRawBytes(size int) []byte {
+	if !d.canRead(size) {
+		return nil
+	}
 	val := make([]byte, size)
 	d.read(val)
 	if d.err != nil {
@@ -201,6 +222,11 @@ func (d *Decoder) popVector(as reflect.Type, ignoreCRC bool) any {
 		return nil
 	}
 
+	// every item of vector takes at least one word, so we can check the size BEFORE allocating the slice
+	if !d.canRead(int(size)) || !d.canRead(int(size)*WordLen) {
+		d.err = errors.Wrap(d.err, "read vector items")
+		return nil
+	}
 	x := reflect.MakeSlice(reflect.SliceOf(as), int(size), int(size))
 	for i := 0; i < int(size); i++ {
 		var val reflect.Value
@@ -255,6 +281,10 @@ func (d *Decoder) PopMessage() []byte {
 		lenNumberSize = WordLen
 	}
 
+	if !d.canRead(realSize) {
+		d.err = errors.Wrapf(d.err, "reading message data with len of %v", realSize)
+		return nil
+	}
 	// этот буффер и будет уже реальным собщением
 	buf := make([]byte, realSize)
 	d.read(buf)
